@@ -33,7 +33,9 @@ using namespace muscle;
 
 typedef std::vector<int> IV;
 static const int NOLIMIT = 99;     // Deque.tla's NoLimit: stands for MUSCLE_NO_LIMIT
-static inline uint32 U(int x) {return (x >= NOLIMIT) ? MUSCLE_NO_LIMIT : (uint32)(int32) x;}
+// Deque.tla's codes for the boundary values of the argument type: 95 = 0x7FFFFFFF, 96 = 0x80000000, 97 = 0xFFFFFFFE, 99 = 0xFFFFFFFF; as a stride 95 / -95 = INT32_MAX / INT32_MIN
+static inline uint32 U(int x) {return (x >= 98) ? MUSCLE_NO_LIMIT : ((x == 95) ? 0x7FFFFFFFu : ((x == 96) ? 0x80000000u : ((x == 97) ? 0xFFFFFFFEu : (uint32)(int32) x)));}
+static inline int32 I32(int x) {return (x >= 95) ? 0x7FFFFFFF : ((x <= -95) ? (int32)(-0x7FFFFFFF-1) : (int32) x);}
 
 // ---------------------------------------------------------------------------------------------------------------------------
 // item types
@@ -430,8 +432,8 @@ template<class T> struct Subject
          } break;
          case OP_Iter: {
             uint32 guard = 0; IV r2;
-            for (ConstQueueIterator<T> it(*((const Q *) q), U(c.a), c.b); (it.HasData())&&(guard++ < 1000); it++) ob.rs.push_back(I::Val(*it));
-            guard = 0; for (QueueIterator<T> it(*q, U(c.a), c.b); (it.HasData())&&(guard++ < 1000); it++) r2.push_back(I::Val(it.GetValue()));
+            for (ConstQueueIterator<T> it(*((const Q *) q), U(c.a), I32(c.b)); (it.HasData())&&(guard++ < 1000); it++) ob.rs.push_back(I::Val(*it));
+            guard = 0; for (QueueIterator<T> it(*q, U(c.a), I32(c.b)); (it.HasData())&&(guard++ < 1000); it++) r2.push_back(I::Val(it.GetValue()));
             if (r2 != ob.rs) ob.bad.push_back("QueueIterator and ConstQueueIterator return different items");
          } break;
 
@@ -515,6 +517,8 @@ static void OnTick(int)
    g_lastSeen = g_progress; alarm(20);
 }
 extern "C" void __sanitizer_set_death_callback(void (*)(void)) __attribute__((weak));
+// an assertion of the library (MASSERT -> Crash() -> abort) while a call is in progress: say which call, leave with exit code 70
+static void OnAbort(int) {const char * m = "\nQU-ABORTED-IN: "; (void) !write(2, m, strlen(m)); (void) !write(2, g_now, strlen(g_now)); (void) !write(2, "\n", 1); _exit(70);}
 static void OnDeath() {fprintf(stderr, "\nQU-IN-PROGRESS: %s\n", g_now); fflush(stderr);}
 static void NoteNow(const char * mode, const char * type, long run, long step, const Call & c)
 {
@@ -616,9 +620,11 @@ template<class T> struct RandomDriver
    IV Src(uint32 maxLen) {IV s; const uint32 n = rng.Below(maxLen+1); for (uint32 i=0; i<n; i++) s.push_back(V0()); return s;}
    int Size() const {return (int) cur.size();}
    RingPos Pos() const {return Sub::PosOf(*sub->q);}
-   int Idx() {return (int) rng.Below((uint32) Size()+2);}                         // valid indices, the first invalid one, and one beyond
+   int BigCode() {const int codes[] = {95, 96, 97, 99}; return codes[rng.Below(4)];}   // a boundary value of the argument type (see U())
+   static int NotSignBit(int code) {return (code == 96) ? 97 : code;}     // AddHeadMulti(queue, startIndex = 0x80000000) is the open known finding QaddHeadStartSign and is kept out
+   int Idx() {return rng.Chance(7) ? BigCode() : (int) rng.Below((uint32) Size()+2);}   // valid indices, the first invalid one, one beyond; now and then a boundary value of uint32
    int ValidIdx() {return (int) rng.Below((uint32) Size());}
-   int Lim() {return rng.Chance(40) ? NOLIMIT : (int) rng.Below((uint32) Size()+3);}
+   int Lim() {return rng.Chance(40) ? NOLIMIT : (rng.Chance(8) ? BigCode() : (int) rng.Below((uint32) Size()+3));}
    bool IsSortedNow() const {for (size_t i=1; i<cur.size(); i++) if (cur[i-1] > cur[i]) return false; return true;}
 
    // makes the call, logs it, checks what can be checked without the model
@@ -674,13 +680,13 @@ template<class T> struct RandomDriver
    {
       const IV src = Src(6); const int n = (int) src.size();
       switch(rng.Below(13)) {
-         case 0: Do(OP_AddTailMulti, rng.Chance(50) ? 0 : (int) rng.Below(n+2), rng.Chance(50) ? NOLIMIT : (int) rng.Below(n+2), 0, 0, src); break;
-         case 1: Do(OP_AddHeadMulti, rng.Chance(50) ? 0 : (int) rng.Below(n+2), rng.Chance(50) ? NOLIMIT : (int) rng.Below(n+2), 0, 0, src); break;
+         case 0: Do(OP_AddTailMulti, rng.Chance(50) ? 0 : (rng.Chance(8) ? BigCode() : (int) rng.Below(n+2)), rng.Chance(50) ? NOLIMIT : (rng.Chance(8) ? BigCode() : (int) rng.Below(n+2)), 0, 0, src); break;
+         case 1: Do(OP_AddHeadMulti, rng.Chance(50) ? 0 : (rng.Chance(8) ? NotSignBit(BigCode()) : (int) rng.Below(n+2)), rng.Chance(50) ? NOLIMIT : (rng.Chance(8) ? BigCode() : (int) rng.Below(n+2)), 0, 0, src); break;
          case 2: Do(OP_AddTailMultiArr, 0, 0, 0, 0, src); break;
          case 3: Do(OP_AddHeadMultiArr, 0, 0, 0, 0, src); break;
          case 4: Do(OP_AddTailMultiSelf, rng.Chance(50) ? 0 : Idx(), Lim()); break;
-         case 5: Do(OP_AddHeadMultiSelf, rng.Chance(50) ? 0 : Idx(), Lim()); break;
-         case 6: case 7: Do(OP_InsertItemsAt, Idx(), rng.Chance(50) ? 0 : (int) rng.Below(n+2), rng.Chance(50) ? NOLIMIT : (int) rng.Below(n+2), 0, src); break;
+         case 5: Do(OP_AddHeadMultiSelf, rng.Chance(50) ? 0 : NotSignBit(Idx()), Lim()); break;
+         case 6: case 7: Do(OP_InsertItemsAt, Idx(), rng.Chance(50) ? 0 : (rng.Chance(8) ? BigCode() : (int) rng.Below(n+2)), rng.Chance(50) ? NOLIMIT : (rng.Chance(8) ? BigCode() : (int) rng.Below(n+2)), 0, src); break;
          case 8: Do(OP_InsertItemsAtArr, Idx(), 0, 0, 0, src); break;
          case 9: Do(OP_InsertItemsAtSelf, Idx(), rng.Chance(50) ? 0 : Idx(), Lim()); break;
          case 10: Do(OP_InsertItemsAt, rng.Chance(50) ? Size() : (int) rng.Below((uint32) Size()+1), 0, NOLIMIT, 0, src); break;
@@ -701,8 +707,8 @@ template<class T> struct RandomDriver
          case 4: Do(OP_RemoveHeadRet); break;
          case 5: Do(OP_RemoveTailRet); break;
          case 6: Do(rng.Chance(50) ? OP_RemoveHeadDef : OP_RemoveTailDef); break;
-         case 7: Do(OP_RemoveHeadMulti, rng.Chance(10) ? NOLIMIT : (int) rng.Below(4)); break;
-         case 8: Do(OP_RemoveTailMulti, rng.Chance(10) ? NOLIMIT : (int) rng.Below(4)); break;
+         case 7: Do(OP_RemoveHeadMulti, rng.Chance(10) ? BigCode() : (int) rng.Below(4)); break;
+         case 8: Do(OP_RemoveTailMulti, rng.Chance(10) ? BigCode() : (int) rng.Below(4)); break;
          case 9: case 10: Do(OP_RemoveItemAt, Idx()); break;
          case 11: Do(OP_RemoveItemAtRet, Idx()); break;
          case 12: Do(OP_RemoveItemAtDef, Idx()); break;
@@ -727,11 +733,13 @@ template<class T> struct RandomDriver
          case 5: case 6: Do(OP_ReplaceItemAt, Idx(), 0, 0, V()); break;
          case 7: Do(OP_ReplaceItemAtDefault, Idx()); break;
          case 8: if (rng.Chance(30)) Do(OP_ReplaceAll, 0, 0, 0, V()); break;
-         case 9: Do(OP_EnsureSize, (int) rng.Below(14)); break;
-         case 10: Do(OP_EnsureSizeSet, (int) rng.Below((uint32) Size()+4)); break;
-         case 11: Do(rng.Chance(35) ? OP_EnsureSizeSetX : OP_EnsureSizeX, (int) rng.Below(12), (int) rng.Below(3), (int) rng.Below(2)); break;    // EnsureSize(n, set, extra, allowShrink), n below the item count included
-         case 12: Do(OP_EnsureCanAdd, (int) rng.Below(6)); break;
-         case 13: Do(OP_ShrinkToFit, (int) rng.Below(4)); break;
+         case 9: Do(OP_EnsureSize, rng.Chance(6) ? BigCode() : (int) rng.Below(14)); break;
+         case 10: Do(OP_EnsureSizeSet, rng.Chance(6) ? BigCode() : (int) rng.Below((uint32) Size()+4)); break;
+         case 11: if (rng.Chance(6)) Do(rng.Chance(35) ? OP_EnsureSizeSetX : OP_EnsureSizeX, BigCode(), 0, (int) rng.Below(2));     // (never a boundary value for extraReallocItems: open known finding QextraOverflow)
+                  else Do(rng.Chance(35) ? OP_EnsureSizeSetX : OP_EnsureSizeX, (int) rng.Below(12), (int) rng.Below(3), (int) rng.Below(2));
+                  break;    // EnsureSize(n, set, extra, allowShrink), n below the item count included
+         case 12: Do(OP_EnsureCanAdd, rng.Chance(8) ? BigCode() : (int) rng.Below(6)); break;
+         case 13: Do(OP_ShrinkToFit, rng.Chance(8) ? BigCode() : (int) rng.Below(4)); break;
          case 14: case 15: Do(OP_Normalize); break;
          case 16: Do(OP_IndexOf, rng.Chance(60) ? 0 : Idx(), Lim(), 0, V0()); break;
          case 17: Do(OP_LastIndexOf, rng.Chance(60) ? NOLIMIT : Idx(), rng.Chance(60) ? 0 : Idx(), 0, V0()); break;
@@ -740,7 +748,7 @@ template<class T> struct RandomDriver
          case 20: Do(rng.Chance(50) ? OP_StartsWithQ : OP_EndsWithQ, 0, 0, 0, 0, src); break;
          case 21: case 22: Do(OP_Cmp, 0, 0, 0, 0, src); break;
          case 23: Do(OP_CmpSelf); break;
-         case 24: {const int strides[] = {1, -1, 2, -2, 3}; Do(OP_Iter, rng.Chance(30) ? Size()-1 : Idx(), strides[rng.Below(5)]);} break;
+         case 24: {const int strides[] = {1, -1, 2, -2, 3, 95, -95}; Do(OP_Iter, rng.Chance(30) ? Size()-1 : Idx(), strides[rng.Below(7)]);} break;
          case 25: case 26: if (Size()) Do(OP_Swap, ValidIdx(), ValidIdx()); break;
          case 27: case 28: Do(OP_Reverse, rng.Chance(50) ? 0 : Idx(), Lim()); break;
          case 29: case 30: Do(OP_Sort, rng.Chance(50) ? 0 : Idx(), Lim()); break;
@@ -948,6 +956,29 @@ static int Directed(const char * name, const char * outFile)
       IV want2(8, 0); want2[0] = 11; want2[1] = 22;
       rec.set("reproduced", mj::Value::Bool(got != want)).set("status", mj::Value::Str(S(r))).set("expected", IVJson(want)).set("observed", IVJson(got)).set("without_reallocation_ok", mj::Value::Bool(got2 == want2));
    }
+   else if (!strcmp(name, "addheadstart")) {
+      // Queue<int> q = [1,2], o = [3,4]; q.AddHeadMulti(o, 0x80000000): "startIndex: index in (queue) to start adding at", beyond the end of o: nothing is added.
+      // (The loop 'for (int32 i=(int32)(startIndex+numNewItems-1); i>=(int32)startIndex; i--)' starts at INT32_MAX for exactly this startIndex: MASSERT in operator[].)
+      Queue<int> q, o; (void) q.AddTail(1); (void) q.AddTail(2); (void) o.AddTail(3); (void) o.AddTail(4);
+      Call c; c.op = OP_AddHeadMulti; c.a = 96; c.b = NOLIMIT; NoteNow("directed", "int", 0, 4, c);
+      const status_t r = q.AddHeadMulti(o, 0x80000000u);
+      IV got; for (uint32 i=0; i<q.GetNumItems(); i++) got.push_back(q[i]);
+      IV want; want.push_back(1); want.push_back(2);
+      Queue<int> p; (void) p.AddTail(1); (void) p.AddTail(2); (void) p.AddHeadMulti(o, 0x80000001u); (void) p.AddHeadMulti(o, 0x7FFFFFFFu); (void) p.AddHeadMulti(o, MUSCLE_NO_LIMIT);
+      IV got2; for (uint32 i=0; i<p.GetNumItems(); i++) got2.push_back(p[i]);
+      rec.set("reproduced", mj::Value::Bool((got != want)||(r.IsError()))).set("status", mj::Value::Str(S(r))).set("expected", IVJson(want)).set("observed", IVJson(got)).set("neighbouring_values_ok", mj::Value::Bool(got2 == want));
+   }
+   else if (!strcmp(name, "extraoverflow")) {
+      // Queue<int> q = [1..8]; q.EnsureSize(20, false, 0xFFFFFFF0): either a failure that changes nothing or room for 20 items; the items stay.
+      // (numSlots + extraReallocItems is added up in 32 bits: 4 slots are allocated and 8 items copied into them - reported by ASan: this process dies here.)
+      Queue<int> * q = new Queue<int>; for (int i=1; i<=8; i++) (void) q->AddTail(i);
+      Call c; c.op = OP_EnsureSizeX; c.a = 20; c.b = -16; c.c = 0; NoteNow("directed", "int", 0, 8, c);
+      const status_t r = q->EnsureSize(20, false, 0xFFFFFFF0u);
+      IV got; for (uint32 i=0; i<q->GetNumItems(); i++) got.push_back((*q)[i]);
+      IV want; for (int i=1; i<=8; i++) want.push_back(i);
+      rec.set("reproduced", mj::Value::Bool((got != want)||((r.IsOK())&&(q->GetNumAllocatedItemSlots() < 20)))).set("status", mj::Value::Str(S(r))).set("expected", IVJson(want)).set("observed", IVJson(got)).set("slots", mj::Value::Int(q->GetNumAllocatedItemSlots()));
+      delete q;
+   }
    else {fclose(out); return 2;}
    fprintf(out, "%s\n", mj::ToString(rec).c_str()); fclose(out);
    return 0;
@@ -958,6 +989,7 @@ int main(int argc, char ** argv)
    CompleteSetupSystem css;
    if (__sanitizer_set_death_callback) __sanitizer_set_death_callback(OnDeath);
    signal(SIGALRM, OnTick); alarm(20);
+   signal(SIGABRT, OnAbort);
    if ((argc >= 4)&&(!strcmp(argv[1], "replay"))) return Replay(argv[2], argv[3], (argc > 4) ? argv[4] : NULL);
    if ((argc >= 8)&&(!strcmp(argv[1], "random"))) {
       const uint64 seed = (uint64) strtoull(argv[3], NULL, 10); const long runs = atol(argv[4]), nops = atol(argv[5]);
@@ -966,6 +998,6 @@ int main(int argc, char ** argv)
       if (!strcmp(argv[2], "Tok"))    return Random<Tok>(seed, runs, nops, argv[6], argv[7]);
    }
    if ((argc >= 4)&&(!strcmp(argv[1], "directed"))) return Directed(argv[2], argv[3]);
-   fprintf(stderr, "usage: qu replay <behaviours> <report> [int|String|Tok] | qu random <int|String|Tok> <seed> <runs> <ops> <trace> <report> | qu directed <swapstale|shrinkoverflow|addheadself|ensuresizerealloc> <report>\n");
+   fprintf(stderr, "usage: qu replay <behaviours> <report> [int|String|Tok] | qu random <int|String|Tok> <seed> <runs> <ops> <trace> <report> | qu directed <swapstale|shrinkoverflow|addheadself|ensuresizerealloc|addheadstart|extraoverflow> <report>\n");
    return 2;
 }
